@@ -29,6 +29,13 @@ returned, or has called Release and not yet executed its store.
 namespace Firefly.C08
 open Firefly.Spin Firefly.Gen.C08
 
+/-- **tie_intact** — the fact generator could translate the current source: every instruction,
+prefix and operand of `spinlock_amd64.s`, every routine the Go methods call, and every client of the
+lock is in the model.  When it cannot (an unknown mnemonic, a new TEXT symbol, a Go method that calls
+another routine, …) the generated file carries the reason in `Gen.C08.tieBroken` and this theorem —
+with everything about the programs — stops checking: the tie is broken explicitly, by name. -/
+theorem tie_intact : Gen.C08.tieBroken = [] := by decide
+
 /-- **mutex** — in every reachable state at most one thread is a holder. -/
 theorem mutex {cfg : Config} {n : Nat} {s : State} (hr : Reachable cfg n s)
     {i j : Nat} {ti tj : Thread} (hi : s.threads[i]? = some ti) (hj : s.threads[j]? = some tj)
